@@ -106,7 +106,7 @@ def _check_result(ctx, repo, tag, snap, d_len, d_integral, d_key, d_units,
     ctx.cls("regime/%s/%s" % (mode, regime))
     exp = snap["inst"] + d_len
     prob = None
-    if type(q) is not repo.TimePoint or q._truncated:
+    if not isinstance(q, repo.TimePoint) or q._truncated:
         prob = "result is not a full TimePoint"
     elif R.tp_rep(q) != snap["key"][0]:
         prob = "representation changed to %s" % R.tp_rep(q)
